@@ -352,6 +352,9 @@ impl ErrorCounter {
             return;
         }
 
+        #[cfg(feature = "verif-hooks")]
+        tracing_subscriber::__verif::point("appender.dropped.incr");
+
         // This is implemented as a CAS loop rather than as a simple
         // `fetch_add`, because we don't want to wrap on overflow. Instead, we
         // need to ensure that saturating addition is performed.
